@@ -1,4 +1,5 @@
 import IwModel.Lemmas.JsonPatchExt
+import IwModel.Lemmas.BinnPatch
 /-! # C15 — JSON Patch gives the RFC 6902 result and a failed patch changes nothing
 
 `Patch.*` is the model of `src/json/iwjson.c` with the `fix:` commits of design_notes/C15.md (tied to the code by
@@ -152,6 +153,196 @@ theorem jbl_patch_rfc_partial (doc : JVal) (ops : List Rfc.Op) (hne : ops ≠ []
   · intro d' hr hc; exact binary_rfc_partial doc ops d' hu hok hr hc
   · intro hr hst
     exact binary_err_partial doc ops hu (fun o ho => ⟨(hok o ho).1, (hok o ho).2, hst o ho⟩) hr
+
+/-! ## The binary entry points on the binn BYTES: decode – patch – encode – swap
+
+`BinnPatch.jblPatch` / `jblPatchFromJson` are `jbl_patch` / `jbl_patch_from_json` as literal compositions of the C14
+reader (`Binn.toNode` = `_jbl_node_from_binn`), the tree patch above and the C14 writer (`Binn.fromNode` =
+`_jbl_from_node_impl` + `binn_save_header`), on holders `Binn.BVal` (`.cont bytes`).  `Holds h v`: the bytes of `h` decode
+to `v` and `v` satisfies the decidable `Binn.wf` of the C14 round-trip theorems.  Hypotheses on results, and why:
+`leafOk` (integers are int64, strings/keys are NUL free: what C's types give anyway — derived from the inputs in
+`jbl_bytes_rfc_partial`), `small` (encoding < 2^31 − 9 bytes: binn size fields are 31 bits).  "Keys ≤ 255 bytes and
+unique ignoring ASCII case" is *not* a hypothesis: it is the case split `wf d'` — when it fails the writer refuses and
+the bytes stay. -/
+section Bytes
+open IwModel.Binn IwModel.BinnPatch
+
+/-- every well-formed document (object or array, `small`) has bytes — the writer's — over which `jbl_from_buf_keep`
+    builds a holder that `Holds` it: the hypothesis `Holds h v` of the theorems below is met by every such document -/
+theorem bytes_holder (v : JVal) (hw : wf v = true) (hs : small v) (hc : isContainer v = true) :
+    ∃ bs, enc v = some bs ∧ ofBuf bs = some (.cont bs) ∧ Holds (.cont bs) v := by
+  obtain ⟨bs, he⟩ := enc_isSome v hw
+  refine ⟨bs, he, ofBuf_enc v bs hc he (hs bs he), ?_⟩
+  have hv : viewOf v = .cont bs := by
+    cases v <;> first | (simp [isContainer] at hc; done) | simp [viewOf, he]
+  rw [← hv]
+  exact holds_view v hw hs
+
+/-- **(b) a failed call leaves the bytes as they were** — for every holder whatsoever (well-formed or not, decodable
+    or not) and every patch document whatsoever: any error of `jbl_patch` / `jbl_patch_from_json` (bad patch, bad
+    pointer, failed operation, undecodable holder, result the binary form cannot hold) ⇒ the holder is unchanged. -/
+theorem jbl_bytes_atomic (h : BVal) (patch : Node) :
+    ((jblPatch h patch).2 ≠ .ok → (jblPatch h patch).1 = h) ∧
+    ((jblPatchFromJson h patch).2 ≠ .ok → (jblPatchFromJson h patch).1 = h) :=
+  ⟨jblPatch_atomic h patch, jblPatchFromJson_atomic h patch⟩
+
+/-- **composition.** On a holder whose bytes decode to `v`, the byte-level call returns what the value-level model
+    `patchBinary v` (the subject of the theorems above) returns, passed through the writer: a result document is
+    encoded (`swapIn`: refused with `JBL_ERROR_CREATION` if it does not fit), a removed root zeroes the holder, an
+    error keeps the holder.  The one exception is the call with no operations, which returns before decoding. -/
+theorem jbl_bytes_compose (h : BVal) (v : JVal) (patch : Node) (hd : decodeHolder h = some v) :
+    jblPatch h patch = wrapRes h (patchBinary v patch) ∨
+    (jblPatch h patch = (h, .ok) ∧ patchBinary v patch = (some v, .ok)) :=
+  jblPatch_eq h v patch hd
+
+/-- **(a) + (c) against the value-level model**, for every holder of a well-formed document and every patch document:
+    if the value-level call succeeds with `d'`, then — when the binary form can hold `d'` — the byte-level call
+    succeeds and the new bytes decode to exactly `d'` and are well-formed again (`Holds h' d'`); when it cannot
+    (`wf d' = false`: a key over 255 bytes or two keys equal ignoring case) the call reports `JBL_ERROR_CREATION` and the
+    bytes are unchanged.  If the value-level call fails with `e`, the byte-level call fails with `e`, bytes unchanged. -/
+theorem jbl_bytes_patch (h : BVal) (v : JVal) (patch : Node) (hh : Holds h v) :
+    (∀ d', patchBinary v patch = (some d', .ok) → leafOk d' = true →
+      (wf d' = true → small d' → ∃ h', jblPatch h patch = (h', .ok) ∧ Holds h' d') ∧
+      (wf d' = false → jblPatch h patch = (h, .creation))) ∧
+    ((patchBinary v patch).2 ≠ .ok → jblPatch h patch = (h, (patchBinary v patch).2)) :=
+  ⟨fun d' hr hl => jblPatch_ok h v patch d' hh hr hl, jblPatch_err h v patch hh.1⟩
+
+/-- the RFC 6902 result of `leafOk` inputs is `leafOk`: nothing but the document, the values of the operations and the
+    tokens of the paths (as new member names) ever gets into the result -/
+theorem rfc_result_leafOk (doc : JVal) (ops : List Rfc.Op) (d' : JVal) (hd : leafOk doc = true)
+    (ho : ∀ o ∈ ops, OpLeaf o) (h : Rfc.run doc ops = some d') : leafOk d' = true :=
+  run_leafOk doc ops d' hd ho h
+
+/-- **End to end on the bytes** (`jbl_patch_from_json` / `jbl_patch` with the RFC 6902 patch document `renderPatch ops`),
+    for every holder `h` of a well-formed document `v` and every non-empty program of the six RFC operations:
+    * (a) RFC 6902 accepts with a document `d'` the binary form can hold ⇒ the call succeeds and
+      `decode(new bytes) = d'` = the RFC result applied to `decode(old bytes)`; (c) the new bytes are well-formed again;
+    * RFC 6902 accepts but `d'` cannot be held (key > 255 bytes / keys equal ignoring case) ⇒ `JBL_ERROR_CREATION`, bytes
+      unchanged;
+    * (b) RFC 6902 rejects ⇒ an error is reported, bytes unchanged.
+    Hypotheses: those of `jbl_patch_rfc_partial` (`_partial`: the two open dialect findings), `OpLeaf` (path tokens NUL
+    free, values `leafOk`), the result is an object or array and `small`. -/
+theorem jbl_bytes_rfc_partial (h : BVal) (v : JVal) (ops : List Rfc.Op) (hh : Holds h v) (hne : ops ≠ [])
+    (hok : ∀ o ∈ ops, OpOk o ∧ opValueUK o) (hp : ∀ o ∈ ops, PtrOk (opPath o) ∧ PtrOk (opFrom o))
+    (hleaf : ∀ o ∈ ops, OpLeaf o) :
+    (∀ d', Rfc.run v ops = some d' → isContainer d' = true →
+      (wf d' = true → small d' → ∃ h', jblPatch h (renderPatch ops) = (h', .ok) ∧ Holds h' d') ∧
+      (wf d' = false → jblPatch h (renderPatch ops) = (h, .creation))) ∧
+    (Rfc.run v ops = none → (∀ o ∈ ops, OpStrict o) →
+      (jblPatch h (renderPatch ops)).1 = h ∧ (jblPatch h (renderPatch ops)).2 ≠ .ok) := by
+  obtain ⟨h1, h2⟩ := jbl_patch_rfc_partial v ops hne (ukj_of_wf v hh.2) hok hp
+  constructor
+  · intro d' hr hc
+    exact jblPatch_ok h v (renderPatch ops) d' hh (h1 d' hr hc)
+      (run_leafOk v ops d' (leafOk_of_wf v hh.2) hleaf hr)
+  · intro hr hst
+    obtain ⟨_, he⟩ := h2 hr hst
+    rw [jblPatch_err h v (renderPatch ops) hh.1 he]
+    exact ⟨rfl, he⟩
+
+/-- `jbl_patch_from_json` on an RFC 6902 patch document (a JSON array) is `jbl_patch` on it, so
+    `jbl_bytes_rfc_partial` speaks about both entry points -/
+theorem jbl_bytes_from_json (h : BVal) (ops : List Rfc.Op) :
+    jblPatchFromJson h (renderPatch ops) = jblPatch h (renderPatch ops) := rfl
+
+/-- **Iteration over a list of patch documents** applied to the same holder one after the other (a failed call changes
+    nothing, the caller goes on): with `SeqOk` (every program satisfies the hypotheses of `jbl_bytes_rfc_partial` and
+    `OpStrict`; every RFC result is an object/array and `small`), the final bytes decode to the fold of RFC 6902 over the
+    list (`rfcSeq`: rejected programs and results the binary form cannot hold are skipped), are well-formed, and the
+    calls that report success are exactly those the specification accepts. -/
+theorem jbl_bytes_rfc_seq_partial (progs : List (List Rfc.Op)) : ∀ (h : BVal) (v : JVal), Holds h v → SeqOk v progs →
+    Holds (patchSeq h (progs.map renderPatch)).1 (rfcSeq v progs) ∧
+    (patchSeq h (progs.map renderPatch)).2.map (· == .ok) = rfcSeqAcc v progs := by
+  induction progs with
+  | nil => intro h v hh _; exact ⟨hh, rfl⟩
+  | cons p r ih =>
+    intro h v hh hs
+    obtain ⟨hp, hm⟩ := hs
+    obtain ⟨h1, h2⟩ := jbl_bytes_rfc_partial h v p hh hp.nonempty hp.ok hp.ptr hp.leaf
+    simp only [List.map_cons, patchSeq, rfcSeq, rfcSeqAcc]
+    cases hrun : Rfc.run v p with
+    | none =>
+      simp only [hrun] at hm ⊢
+      obtain ⟨e1, e2⟩ := h2 hrun hp.strict
+      rw [e1]
+      obtain ⟨i1, i2⟩ := ih h v hh hm
+      refine ⟨i1, ?_⟩
+      simp only [i2, List.cons.injEq, and_true]
+      cases he : (jblPatch h (renderPatch p)).2 <;> first | exact absurd he e2 | rfl
+    | some d' =>
+      simp only [hrun] at hm ⊢
+      obtain ⟨hc, hsm, hrest⟩ := hm
+      obtain ⟨a1, a2⟩ := h1 d' hrun hc
+      by_cases hw : wf d' = true
+      · obtain ⟨h', e, hh'⟩ := a1 hw hsm
+        simp only [hw, ↓reduceIte] at hrest ⊢
+        rw [e]
+        obtain ⟨i1, i2⟩ := ih h' d' hh' hrest
+        exact ⟨i1, by simp only [i2]; rfl⟩
+      · simp only [Bool.not_eq_true] at hw
+        simp only [hw, Bool.false_eq_true, ↓reduceIte] at hrest ⊢
+        rw [a2 hw]
+        obtain ⟨i1, i2⟩ := ih h v hh hrest
+        exact ⟨i1, by simp only [i2]; rfl⟩
+
+/-- the hypotheses are satisfiable — document `{"a":-5,"b":["hi",null]}` in its binary form (18 bytes), program
+    `[test /a -5, add /c 3]`: the call succeeds and the new bytes decode to `{"a":-5,"b":["hi",null],"c":3}` -/
+def bytesB : Bytes := [226, 18, 2, 1, 97, 33, 251, 1, 98, 224, 9, 2, 160, 2, 104, 105, 0, 0]
+def docBB : JVal := .obj [([97], .int (-5)), ([98], .arr [.str [104, 105], .null])]
+def progBB : List Rfc.Op := [.test [[97]] (.int (-5)), .add [[99]] (.int 3)]
+
+theorem holds_bytesB : Holds (.cont bytesB) docBB := ⟨by rfl, by decide⟩
+
+theorem progBB_ok : ProgOk progBB where
+  nonempty := by simp [progBB]
+  ok := by
+    intro o ho
+    simp only [progBB, List.mem_cons, List.not_mem_nil, or_false] at ho
+    rcases ho with rfl | rfl <;>
+      exact ⟨⟨fun s hs => idxAgree_small s (by simp [opPath] at hs; subst hs; decide),
+              fun s hs => by simp [opFrom] at hs, by simp [opPath]⟩, UKJ.int _⟩
+  ptr := by
+    intro o ho
+    simp only [progBB, List.mem_cons, List.not_mem_nil, or_false] at ho
+    rcases ho with rfl | rfl <;> simp [PtrOk, opPath, opFrom]
+  leaf := by
+    intro o ho
+    simp only [progBB, List.mem_cons, List.not_mem_nil, or_false] at ho
+    rcases ho with rfl | rfl <;> simp [OpLeaf, opPath, opFrom, leafOk]
+  strict := by
+    intro o ho
+    simp only [progBB, List.mem_cons, List.not_mem_nil, or_false] at ho
+    rcases ho with rfl | rfl
+    · exact ⟨by simp [opFrom], by simp [opPath], by intro _; simp [opPath, dash], rfl⟩
+    · exact ⟨by simp [opFrom], by simp [opPath], by simp, rfl⟩
+
+example : ∃ h', jblPatch (.cont bytesB) (renderPatch progBB) = (h', .ok) ∧
+    Holds h' (.obj [([97], .int (-5)), ([98], .arr [.str [104, 105], .null]), ([99], .int 3)]) := by
+  have hrun : Rfc.run docBB progBB = some (.obj [([97], .int (-5)), ([98], .arr [.str [104, 105], .null]), ([99], .int 3)]) := by
+    simp [Rfc.run, Rfc.step, docBB, progBB, Rfc.getAt, Rfc.jsonEq, Rfc.jsonEqF, Rfc.add, Rfc.updAt,
+      Rfc.addChild, Rfc.put, List.lookup]
+  have h1 := (jbl_bytes_rfc_partial (.cont bytesB) docBB progBB holds_bytesB progBB_ok.nonempty progBB_ok.ok
+    progBB_ok.ptr progBB_ok.leaf).1 _ hrun rfl
+  exact h1.1 (by decide) (small_of_enc _ [226, 22, 3, 1, 97, 33, 251, 1, 98, 224, 9, 2, 160, 2, 104, 105, 0, 0, 1, 99, 32, 3]
+    (by decide) (by decide))
+
+/-- … and a result the binary form cannot hold: adding the member `A` next to `a` is accepted by RFC 6902 but the
+    writer refuses keys that are equal ignoring ASCII case — `JBL_ERROR_CREATION`, bytes unchanged -/
+example : jblPatch (.cont bytesB) (renderPatch [.add [[65]] (.int 1)]) = (.cont bytesB, .creation) := by
+  have hok : ∀ o ∈ [Rfc.Op.add [[65]] (.int 1)], OpOk o ∧ opValueUK o := by
+    intro o ho
+    simp only [List.mem_cons, List.not_mem_nil, or_false] at ho
+    subst ho
+    exact ⟨⟨fun s hs => idxAgree_small s (by simp [opPath] at hs; subst hs; decide),
+            fun s hs => by simp [opFrom] at hs, by simp [opPath]⟩, UKJ.int _⟩
+  have h1 := (jbl_bytes_rfc_partial (.cont bytesB) docBB [.add [[65]] (.int 1)] holds_bytesB (by simp) hok
+    (by intro o ho; simp at ho; subst ho; simp [PtrOk, opPath, opFrom])
+    (by intro o ho; simp at ho; subst ho; simp [OpLeaf, opPath, opFrom, leafOk])).1
+    (.obj [([97], .int (-5)), ([98], .arr [.str [104, 105], .null]), ([65], .int 1)])
+    (by simp [Rfc.run, Rfc.step, docBB, Rfc.add, Rfc.updAt, Rfc.addChild, Rfc.put]) rfl
+  exact h1.2 (by decide)
+
+end Bytes
 
 /-! ## The documented extensions do what their descriptions say -/
 
